@@ -92,9 +92,12 @@ def approxFvsTrees (g : Graph) (k : Nat) (scan order picks : List Nat) (sorter :
     (pickD : Nat → Pick) : ApproxOutcome :=
   approxCore g k scan (fun sp => mcbFvsTrees sp order picks sorter) pickD
 
-def approxIsoTrees (g : Graph) (k : Nat) (scan order : List Nat) (sorter : List Cand → List Cand)
+/-- `approx_mcb_sva_iso_trees`.  NOTE: the sequential entry point instantiates `detail::mcb_sva_fvs_trees` as its exact
+algorithm (include/parmcb/parmcb_approx_sva_trees.hpp:49 — the TBB entry point does use the isometric variant), so the
+exact phase of this model is the FVS-tree algorithm, as in the code; observed by the literal replay of the exact phase. -/
+def approxIsoTrees (g : Graph) (k : Nat) (scan order picks : List Nat) (sorter : List Cand → List Cand)
     (pickD : Nat → Pick) : ApproxOutcome :=
-  approxCore g k scan (fun sp => mcbIsoTrees sp order sorter) pickD
+  approxCore g k scan (fun sp => mcbFvsTrees sp order picks sorter) pickD
 
 def approxSignedTbb (g : Graph) (k : Nat) (scan order : List Nat) (pick : Nat → PickFam) (σ : Nat → List Nat → List Nat)
     (perm : List Nat) (scheds : Nat → List Nat → Sched) (pickD : Nat → Pick) (pushOrder : List Nat) (s : Sched) :
